@@ -276,6 +276,9 @@ func (a *attempt) steady(what string, done func() bool, deadline uint32, pend fu
 
 // family names the schedule family in stall signatures.
 func (a *attempt) family() string {
+	if a.sc.Scen == "full" {
+		return "pools-fuller-than-a-block"
+	}
 	if a.sc.Scen == "losttx" {
 		return "proposed-transaction-unavailable-to-the-backups"
 	}
@@ -591,6 +594,10 @@ func checkLimits(cl *cluster, a *analysis, blocks []*block.Block) {
 			ambiguous[k] = true
 		}
 		props[k] = ps
+		a.obs["largest_proposal_seen"] = max(a.obs["largest_proposal_seen"], int64(len(pr.Txs)))
+		if len(pr.Txs) >= 500 {
+			a.obs["proposals_with_500_or_more_transactions"]++
+		}
 		if !ps.known {
 			continue
 		}
